@@ -29,7 +29,7 @@ static const char *const rg_menu[NPARTS][RG_MAXMENU] = {
 	[P_HOUR] = {"0", "9", "23", "9,17", "0,6,12,18"},
 	[P_MIN] = {"0", "30", "59", "45,59", "0,15,30,45"},
 	[P_SEC] = {"0", "30", "0,59", "31,45"},
-	[P_POS] = {"1", "-1", "2,-2", "1,2,3"},
+	[P_POS] = {"1", "-1", "2,-2", "1,2,3", "6,7", "5,6"},
 };
 
 /* which parts are in the grammar for which FREQ (RFC 5545 table, minus what appendix A keeps out) */
